@@ -120,7 +120,7 @@ def run_task(P, task, prop, tier, out):
         add_function(out, fi, kind)
         if cls == "CachedFcn":
             add_function(out, P.lookup_method("UserFcn", "__call__"), kind)
-        variants = ["fresh", "warm"] if cls == "CachedFcn" else ["fresh", "warm-fcn"]
+        variants = ["fresh", "warm", "warm-longer"] if cls == "CachedFcn" else ["fresh", "warm-fcn"]
         for variant in variants:
             X = _X(P)
             st = State()
@@ -134,6 +134,15 @@ def run_task(P, task, prop, tier, out):
                 fields["lastKwds"] = st.alloc(CDict({}), new=False)
                 fields["lastReturn"] = VOpq(uf_o(e, d0), "other")
                 fields["fcn"] = VOpq(e, "function")
+            if variant == "warm-longer":
+                # the previous call had one more positional argument: not a cache hit for the shorter call
+                d1 = z3.Const("d1", core.Datum)
+                pair = z3.Function("datum_pair", core.Datum, core.Datum, core.Datum)
+                fields["lastArgs"] = VTuple([VOpq(d0, "datum"), VOpq(d1, "datum")])
+                fields["lastKwds"] = st.alloc(CDict({}), new=False)
+                fields["lastReturn"] = VOpq(uf_o(e, pair(d0, d1)), "other")
+                fields["fcn"] = VOpq(e, "function")
+                st.add(uf_o(e, pair(d0, d1)) != uf_o(e, d0))
             if variant == "warm-fcn":
                 fields["fcn"] = VOpq(e, "function")
             w = st.alloc(Inst(cls, fields), new=False)
@@ -157,6 +166,9 @@ def run_task(P, task, prop, tier, out):
                     inv = z3.BoolVal(False)
                     if isinstance(la, VTuple) and len(la.items) == 1 and isinstance(lr, VOpq):
                         inv = lr.t == uf_o(e, la.items[0].t)
+                    elif isinstance(la, VTuple) and len(la.items) == 2 and isinstance(lr, VOpq):
+                        pair = z3.Function("datum_pair", core.Datum, core.Datum, core.Datum)
+                        inv = lr.t == uf_o(e, pair(la.items[0].t, la.items[1].t))
                     vc = smt.build_vc("c17", s.fork(), inv)
                     record(out, prop, fi.qualname, "ensures:cache-invariant", p, variant, vc, tier)
                 # frame: only the cache fields / fcn change
